@@ -1,12 +1,12 @@
 package rules
 
 import (
-	"os"
 	"fmt"
 	"go/ast"
 	"go/constant"
 	"go/token"
 	"go/types"
+	"os"
 	"sort"
 	"strings"
 
@@ -159,7 +159,7 @@ func ruleForwardConsultsFilters(w *core.World, r *core.Report) {
 				}
 			}
 			// or the command value is built in the parser itself
-			if a, ok := in.(*ssa.Alloc); ok && name != "(*syncer.RedisOutput).parseAofCommand" && strings.HasSuffix(core.TypeName(a.Type()), "bisyncAofCommand") {
+			if a, ok := in.(*ssa.Alloc); ok && name != "(*syncer.RedisOutput).parseAofCommand" && strings.HasSuffix(core.TypeName(a.Type()), "bisyncAofCommand") && namesCommand(a) {
 				return true
 			}
 			if sel, ok := in.(*ssa.Select); ok && name == "(*syncer.RedisOutput).parseAofCommand" {
@@ -230,6 +230,8 @@ func ruleForwardConsultsFilters(w *core.World, r *core.Report) {
 					}
 				}
 				if ok && k > 0 {
+					bp = true
+				} else if fromDb, calls := flagOnlyFromFilterDb(w, p.Resolve(fct.Cond)); fromDb && calls > 0 {
 					bp = true
 				}
 			}
@@ -494,7 +496,18 @@ func ruleBookkeepingPrefixes(w *core.World, r *core.Report) {
 	}
 	found := false
 	var pos token.Pos = f.Pos()
-	for _, s := range core.SitesNamed(f, false, "*RedisKeyFilter).InsertPrefixKeyBlackList") {
+	var prefixSites []core.Site
+	for _, g := range reachableFuncs(f) {
+		if g != f && !(core.Transparent != nil && core.Transparent(g)) {
+			continue
+		}
+		for _, s := range core.SitesNamed(g, false, "*RedisKeyFilter).InsertPrefixKeyBlackList") {
+			if s.Instr.Parent() == g {
+				prefixSites = append(prefixSites, s)
+			}
+		}
+	}
+	for _, s := range prefixSites {
 		el, ok := core.VariadicElems(s.Args()[0])
 		if !ok {
 			continue
@@ -505,7 +518,7 @@ func ruleBookkeepingPrefixes(w *core.World, r *core.Report) {
 				has[str] = true
 			}
 		}
-		if has[cp] && has[ns] && len(core.FactsAt(s.Instr.Block())) == 0 {
+		if has[cp] && has[ns] && unconditionalIn(w, f, s.Instr, 3) {
 			found = true
 			pos = s.Pos()
 		}
@@ -916,7 +929,6 @@ func ruleTrieGrowOnly(w *core.World, r *core.Report) {
 	r.Check(bad == "" && n >= 3, "Trie/grow-only", pos, "%s (node writes seen: %d)", bad, n)
 }
 
-
 // buildsBisyncCommand: the call is to a function of the module (a closure or a
 // named one) that returns a bisyncAofCommand it has built.
 func buildsBisyncCommand(s core.Site) bool {
@@ -928,13 +940,29 @@ func buildsBisyncCommand(s core.Site) bool {
 		return false
 	}
 	for _, i2 := range core.OwnInstrs(g) {
-		if a, ok := i2.(*ssa.Alloc); ok && strings.HasSuffix(core.TypeName(a.Type()), "bisyncAofCommand") {
+		if a, ok := i2.(*ssa.Alloc); ok && strings.HasSuffix(core.TypeName(a.Type()), "bisyncAofCommand") && namesCommand(a) {
 			return true
 		}
 	}
 	return false
 }
 
+// namesCommand: the command value is given a name (an empty bisyncAofCommand{} returned beside "dropped" is not
+// a forwarded command).
+func namesCommand(a *ssa.Alloc) bool {
+	if refs := a.Referrers(); refs != nil {
+		for _, rf := range *refs {
+			if fa, ok := rf.(*ssa.FieldAddr); ok && core.FieldName(fa) == "Cmd" {
+				for _, rr := range *fa.Referrers() {
+					if st, isSt := rr.(*ssa.Store); isSt && st.Addr == ssa.Value(fa) {
+						return true
+					}
+				}
+			}
+		}
+	}
+	return false
+}
 
 // rangedSlice: the slice a `for i, x := range s` loop headed by head ranges over.
 func rangedSlice(head *ssa.BasicBlock) ssa.Value {
@@ -1092,7 +1120,6 @@ func ruleTrieSameAlphabet(w *core.World, r *core.Report) {
 	same := len(kinds) == 3 && kinds["Insert"] != "" && kinds["Insert"] != "mixed" && kinds["Insert"] == kinds["IsPrefixMatch"] && kinds["Insert"] == kinds["Search"]
 	r.Check(same, "Trie/one-alphabet", pos, "the prefix trie is written and read with different decompositions of the key (%v): what Insert stored is found only for keys on which they agree", kinds)
 }
-
 
 // ruleFilterCmdKeyKeep (part of R10.2; shared with C11: every key the slot rule judges is hashed itself).
 func ruleFilterCmdKeyKeep(w *core.World, r *core.Report) {
@@ -1544,7 +1571,6 @@ func ruleWithheldOnlyByFilters(w *core.World, r *core.Report) {
 		r.Fail("snapshot-workers/withheld-only-by-filters", token.NoPos, "no snapshot worker found")
 	}
 }
-
 
 // ruleUnitFromProjection (part of R10.8, shared with C18): the command a replay unit is built from —
 // and whose keys decide the unit's slot and the single-slot test — is the filter's projection.
